@@ -27,6 +27,52 @@ def pairs_q(arr):
     return [qlist(p) for p in np.asarray(arr, dtype=float).reshape(-1, 2)]
 
 
+def num(v, mode="float"):
+    """scalar argument: a Python int when `mode == "int"` and the value is integral, else a float."""
+    f = F(v)
+    if mode == "int" and f.denominator == 1:
+        return int(f)
+    return float(f)
+
+
+def seq_of(xs, kind="tuple"):
+    """container of a short sequence argument (shape, scales, origin, centre, one coordinate pair)."""
+    xs = list(xs)
+    if kind == "list":
+        return xs
+    if kind == "ndarray":
+        return np.array(xs)
+    return tuple(xs)
+
+
+def arr_of(pairs, vals="float64"):
+    """array-valued argument (a list of (y,x) pairs) in the requested dtype / container:
+    float64 ndarray | list of lists of floats | int64 ndarray | list of lists of Python ints
+    (the integer forms only when every value is integral; otherwise the float twin)."""
+    fr_ = [[F(a), F(b)] for a, b in pairs]
+    if not fr_:
+        return np.zeros((0, 2))
+    integral = all(x.denominator == 1 for p_ in fr_ for x in p_)
+    if vals == "int64" and integral:
+        return np.array([[int(a), int(b)] for a, b in fr_], dtype=np.int64)
+    if vals == "pyint" and integral:
+        return [[int(a), int(b)] for a, b in fr_]
+    if vals in ("pylist", "pyint"):
+        return [[float(a), float(b)] for a, b in fr_]
+    return np.array([[float(a), float(b)] for a, b in fr_], dtype=np.float64)
+
+
+def mask_arg(bits2d, kind="ndarray"):
+    """boolean mask argument as bool ndarray | list of lists of bool | list of lists of 0/1 ints | int ndarray"""
+    if kind == "list":
+        return [[bool(b) for b in r] for r in bits2d]
+    if kind == "int_list":
+        return [[int(b) for b in r] for r in bits2d]
+    if kind == "int_ndarray":
+        return np.array([[int(b) for b in r] for r in bits2d], dtype=np.int64)
+    return np.array(bits2d, dtype=bool)
+
+
 def cs_of(angle: F):
     """(cos, sin) of an angle in degrees, as the exact rationals of the doubles libm returns."""
     a = math.radians(float(angle))
@@ -169,6 +215,43 @@ class C02(PropertyCheck):
             oy, ox = F(0), F(0)
         return sy, sx, oy, ox
 
+    def _variant(self, rng, integer=False):
+        """how the case is fed to the public API (dtype, container, route, falsy/defaulted options): the exact
+        model and the oracle do not depend on it — the results must be the same real numbers."""
+        return {
+            "vals": rng.choice(["int64", "pyint"]) if integer
+            else rng.choice(["float64", "float64", "pylist", "int64", "pyint"]),
+            "params": rng.choice(["float", "float", "int"]),
+            "route": rng.choice(["geometry", "geometry", "util", "geometry_obj"]),
+            "seq": rng.choice(["tuple", "tuple", "list"]),
+            "point_seq": rng.choice(["tuple", "list", "ndarray"]),
+            "scalar_scales": rng.random() < 0.5,
+            "omit_defaults": rng.random() < 0.5,
+            "explicit_flags": rng.random() < 0.3,
+            "mask_arg": rng.choice(["ndarray", "list", "int_list", "int_ndarray"]),
+            "mask_ctor": rng.choice(["all_false", "manual"]),
+            "grid_ctor": rng.choice(["no_mask", "with_mask"]),
+        }
+
+    def _geom_int_case(self, rng, H, W, tag):
+        """integer-valued query coordinates and pixel coordinates, fed as int64 ndarrays / Python int lists."""
+        sy, sx = rng.choice([F(1), F(3, 2), F(2), F(3)]), rng.choice([F(1), F(3, 2), F(2), F(3), F(1, 2)])
+        oy, ox = gen.origin_pair(rng)
+        if rng.random() < 0.3:
+            oy, ox = F(round(oy)), F(round(ox)) + 1
+        ymin, ymax = oy - H * sy / 2, oy + H * sy / 2
+        xmin, xmax = ox - W * sx / 2, ox + W * sx / 2
+        ys = [y for y in range(math.floor(ymin) + 1, math.ceil(ymax)) if ymin < y < ymax]
+        xs = [x for x in range(math.floor(xmin) + 1, math.ceil(xmax)) if xmin < x < xmax]
+        pts = []
+        if ys and xs:
+            pts = [(F(rng.choice(ys)), F(rng.choice(xs))) for _ in range(8)]
+        pix = [(F(rng.randint(-2, H + 2)), F(rng.randint(-2, W + 2))) for _ in range(6)]
+        pix += [(F(i), F(j)) for i in (0, H - 1) for j in (0, W - 1)]
+        return {"tag": tag, "kind": "geom", "shape": [H, W], "scales": qlist([sy, sx]),
+                "origin": qlist([oy, ox]), "points": [qlist(p) for p in pts],
+                "pixels": [qlist(p) for p in pix], "variant": self._variant(rng, integer=True)}
+
     def _geom_case(self, rng, H, W, k, tag):
         sy, sx, oy, ox = self._scales_origin(rng, k)
         ymax, xmin = oy + H * sy / 2, ox - W * sx / 2
@@ -201,7 +284,7 @@ class C02(PropertyCheck):
         pix += [(F(i), F(j)) for i in (0, H - 1) for j in (0, W - 1)]
         return {"tag": tag, "kind": "geom", "shape": [H, W], "scales": qlist([sy, sx]),
                 "origin": qlist([oy, ox]), "points": [qlist(p) for p in pts],
-                "pixels": [qlist(p) for p in pix]}
+                "pixels": [qlist(p) for p in pix], "variant": self._variant(rng)}
 
     def _boundary_case(self, rng, H, W):
         """a single query point exactly on a pixel boundary: inside the property's tie band, skipped and
@@ -214,11 +297,17 @@ class C02(PropertyCheck):
                 "origin": qlist([oy, ox]), "points": [qlist((ymax - b * sy, xmin + tx * sx))],
                 "pixels": [], "single_band_point": True}
 
-    def _grid_case(self, rng, H, W, tag):
-        sy, sx, oy, ox = self._scales_origin(rng, rng.randrange(2))
-        m, kind = gen.random_mask(rng, H, W)
+    def _grid_case(self, rng, H, W, tag, all_masked=False):
+        sy, sx, oy, ox = self._scales_origin(rng, rng.randrange(3))
+        if rng.random() < 0.25:  # integer-valued geometry, passed as Python ints by some variants
+            sy, sx = F(rng.choice([1, 2, 3])), F(rng.choice([1, 2, 3]))
+            oy, ox = F(round(oy)), F(round(ox))
+        if all_masked:
+            m, kind = gen.full(H, W), "all_masked"
+        else:
+            m, kind = gen.random_mask(rng, H, W)
         return {"tag": f"{tag}_{kind}", "kind": "grid", "mask": mask_json(m), "scales": qlist([sy, sx]),
-                "origin": qlist([oy, ox])}
+                "origin": qlist([oy, ox]), "variant": self._variant(rng)}
 
     def _grid1d_case(self, rng, n, bits):
         s = rng.choice(gen.SCALES)
@@ -226,9 +315,10 @@ class C02(PropertyCheck):
         xmin = o - n * s / 2
         pts = [xmin + F(rng.randint(1, n * 256 - 1), 256) * s for _ in range(4)]
         pts += [xmin + (b + sg * HUG) * s for b in range(n + 1) for sg in (-1, 1) if 0 < b + sg * HUG < n]
+        pts += [F(x) for x in range(math.floor(xmin) + 1, math.ceil(xmin + n * s))][:3]  # integer coordinates
         pix = [F(rng.randint(-8, (n + 1) * 8), 8) for _ in range(3)] + [F(0), F(n - 1)]
         return {"tag": "grid1d", "kind": "grid1d", "bits": bits, "scale": q(s), "origin": q(o),
-                "points": qlist(pts), "pixels": qlist(pix)}
+                "points": qlist(pts), "pixels": qlist(pix), "variant": self._variant(rng)}
 
     def _pixel_distance(self, rng, H, W, sy, sx, cy, cx, ell=None):
         """(double) radial quantity of a random pixel — the thresholds the generators hug."""
@@ -244,7 +334,9 @@ class C02(PropertyCheck):
 
     def _hug(self, rng, d):
         """a radius next to the pixel distance d: just below, just above, or somewhere else."""
-        mode = rng.randrange(4)
+        mode = rng.randrange(5)
+        if mode == 4:
+            return F(rng.randint(0, 8))  # integer radius (0 included: "set but falsy")
         if mode == 0:
             return F(d) * (1 - HUG)
         if mode == 1:
@@ -255,16 +347,23 @@ class C02(PropertyCheck):
 
     def _shape_case(self, rng, H, W, ctor, tag):
         sy, sx, oy, ox = self._scales_origin(rng, rng.randrange(3))
+        integer = rng.random() < 0.2  # integer-valued parameters, passed as Python ints by some variants
+        if integer:
+            sy, sx = F(rng.choice([1, 2, 3])), F(rng.choice([1, 2, 3]))
+            oy, ox = F(round(oy)), F(round(ox))
         # centre: inside the frame, unequal components, sometimes zero
         if rng.random() < 0.25:
             cy, cx = F(0), F(0)
+        elif integer:
+            cy, cx = F(rng.randint(-H, H)), F(rng.randint(-W, W))
         else:
             cy = F(rng.randint(-H * 4, H * 4), 8) * sy
             cx = F(rng.randint(-W * 4, W * 4), 8) * sx
             if cy == cx:
                 cx += F(1, 8)
         case = {"tag": f"{tag}_{ctor}", "kind": "shape", "ctor": ctor, "shape": [H, W],
-                "scales": qlist([sy, sx]), "origin": qlist([oy, ox]), "centre": qlist([cy, cx])}
+                "scales": qlist([sy, sx]), "origin": qlist([oy, ox]), "centre": qlist([cy, cx]),
+                "variant": self._variant(rng)}
 
         def pd(ell=None):
             return self._pixel_distance(rng, H, W, sy, sx, cy, cx, ell)
@@ -316,9 +415,11 @@ class C02(PropertyCheck):
         for (H, W) in shapes:
             for k in range(reps_geom):
                 yield self._geom_case(rng, H, W, k, "geom")
+            yield self._geom_int_case(rng, H, W, "geom_int")
             yield self._boundary_case(rng, H, W)
             for _ in range(2 if tier == "quick" else 4):
                 yield self._grid_case(rng, H, W, "grid")
+            yield self._grid_case(rng, H, W, "grid", all_masked=True)
             for ctor in CTORS:
                 for _ in range(reps_shape):
                     yield self._shape_case(rng, H, W, ctor, "shape")
@@ -330,6 +431,7 @@ class C02(PropertyCheck):
         for _ in range(20 if tier == "quick" else 120):
             H, W = rng.randint(8, 16), rng.randint(8, 16)
             yield self._geom_case(rng, H, W, rng.randrange(3), "geom_large")
+            yield self._geom_int_case(rng, H, W, "geom_int_large")
             yield self._grid_case(rng, H, W, "grid_large")
             yield self._shape_case(rng, H, W, rng.choice(CTORS), "shape_large")
 
@@ -347,14 +449,44 @@ class C02(PropertyCheck):
             return self._impl_grid1d(aa, case)
         return self._impl_shape(aa, case)
 
+    @staticmethod
+    def _geometry_args(case):
+        """(shape, pixel_scales, tuple_scales, origin_kwargs) as the case's variant prescribes"""
+        v = case.get("variant", {})
+        pm, sq = v.get("params", "float"), v.get("seq", "tuple")
+        sy, sx = (F(x) for x in case["scales"])
+        sc_t = tuple(num(x, pm) for x in case["scales"])
+        sc = float(sy) if (v.get("scalar_scales") and sy == sx) else seq_of(sc_t, sq)
+        org = seq_of([num(x, pm) for x in case["origin"]], sq)
+        okw = {} if (v.get("omit_defaults") and all(F(x) == 0 for x in case["origin"])) else {"origin": org}
+        return v, sc, sc_t, okw
+
     def _impl_geom(self, aa, case):
+        from autoarray.geometry import geometry_util
+        from autoarray.geometry.geometry_2d import Geometry2D
+
         H, W = case["shape"]
-        sc = tuple(fl(v) for v in case["scales"])
-        org = tuple(fl(v) for v in case["origin"])
-        mask = aa.Mask2D.all_false(shape_native=(H, W), pixel_scales=sc, origin=org)
-        g = mask.geometry
-        pts = [(fl(a), fl(b)) for a, b in case["points"]]
-        pix = [(fl(a), fl(b)) for a, b in case["pixels"]]
+        v, sc, sc_t, okw = self._geometry_args(case)
+        org_t = tuple(okw["origin"]) if okw else (0.0, 0.0)
+        if v.get("mask_ctor", "all_false") == "all_false":
+            mask = aa.Mask2D.all_false(shape_native=seq_of((H, W), v.get("seq", "tuple")), pixel_scales=sc, **okw)
+        else:
+            mask = aa.Mask2D(mask=mask_arg([[False] * W for _ in range(H)], v.get("mask_arg", "ndarray")),
+                             pixel_scales=sc, **okw)
+        route = v.get("route", "geometry")
+        g = Geometry2D(shape_native=(H, W), pixel_scales=sc, **okw) if route == "geometry_obj" else mask.geometry
+        vals, pseq = v.get("vals", "pylist"), v.get("point_seq", "tuple")
+        pm = "int" if vals in ("int64", "pyint") else "float"
+        pts = [seq_of([num(a, pm), num(b, pm)], pseq) for a, b in case["points"]]
+        pix = [seq_of([num(a, pm), num(b, pm)], pseq) for a, b in case["pixels"]]
+        ukw = dict(shape_native=(H, W), pixel_scales=sc_t, origin=org_t)
+
+        def qgrid(pairs):
+            a = arr_of(pairs, vals)
+            if v.get("grid_ctor", "no_mask") == "no_mask":
+                return aa.Grid2D.no_mask(values=a, shape_native=(1, len(pairs)), pixel_scales=1.0)
+            return aa.Grid2D(values=a, mask=aa.Mask2D.all_false(shape_native=(1, len(pairs)), pixel_scales=1.0))
+
         obs = {
             "central_pixel": qlist(g.central_pixel_coordinates),
             "central_scaled": qlist(g.central_scaled_coordinates),
@@ -363,39 +495,66 @@ class C02(PropertyCheck):
             "extent": qlist(g.extent),
             "grid": pairs_q(aa.Grid2D.from_mask(mask=mask).array),
             "centre_roundtrip": [
-                [int(v) for v in g.pixel_coordinates_2d_from(g.scaled_coordinates_2d_from((i, j)))]
+                [int(x) for x in g.pixel_coordinates_2d_from(g.scaled_coordinates_2d_from((i, j)))]
                 for i in range(H) for j in range(W)],
         }
+        # empty coordinate lists through the util routines
+        e = np.zeros((0, 2))
+        obs["empty"] = [len(geometry_util.grid_pixels_2d_slim_from(grid_scaled_2d_slim=e, **ukw)),
+                        len(geometry_util.grid_pixel_centres_2d_slim_from(grid_scaled_2d_slim=e, **ukw)),
+                        len(geometry_util.grid_pixel_indexes_2d_slim_from(grid_scaled_2d_slim=e, **ukw)),
+                        len(geometry_util.grid_scaled_2d_slim_from(grid_pixels_2d_slim=e, **ukw))]
         if pts:
-            qg = aa.Grid2D.no_mask(values=pts, shape_native=(1, len(pts)), pixel_scales=1.0)
-            obs["pix_a"] = [[int(v) for v in g.pixel_coordinates_2d_from(p)] for p in pts]
-            obs["centres"] = [[int(a), int(b)] for a, b in
-                              np.asarray(g.grid_pixel_centres_2d_from(grid_scaled_2d=qg).array).reshape(-1, 2)]
-            obs["indexes"] = [int(v) for v in
-                              np.asarray(g.grid_pixel_indexes_2d_from(grid_scaled_2d=qg).array).ravel()]
-            cont = g.grid_pixels_2d_from(grid_scaled_2d=qg)
-            obs["pixels"] = pairs_q(cont.array)
-            obs["roundtrip"] = pairs_q(g.grid_scaled_2d_from(grid_pixels_2d=cont).array)
+            obs["pix_a"] = [[int(x) for x in g.pixel_coordinates_2d_from(p)] for p in pts]
+            obs["snap"] = [qlist(g.scaled_coordinate_2d_to_scaled_at_pixel_centre_from(p)) for p in pts]
+            if route == "util":
+                a = np.asarray(arr_of(case["points"], vals))
+                cen = geometry_util.grid_pixel_centres_2d_slim_from(grid_scaled_2d_slim=a, **ukw)
+                idx = geometry_util.grid_pixel_indexes_2d_slim_from(grid_scaled_2d_slim=a, **ukw)
+                cont = geometry_util.grid_pixels_2d_slim_from(grid_scaled_2d_slim=a, **ukw)
+                back = geometry_util.grid_scaled_2d_slim_from(grid_pixels_2d_slim=cont, **ukw)
+            else:
+                qg = qgrid(case["points"])
+                cen = g.grid_pixel_centres_2d_from(grid_scaled_2d=qg).array
+                idx = g.grid_pixel_indexes_2d_from(grid_scaled_2d=qg).array
+                contg = g.grid_pixels_2d_from(grid_scaled_2d=qg)
+                cont = contg.array
+                back = g.grid_scaled_2d_from(grid_pixels_2d=contg).array
+            obs["centres"] = [[int(a_), int(b_)] for a_, b_ in np.asarray(cen).reshape(-1, 2)]
+            obs["indexes"] = [int(x) for x in np.asarray(idx).ravel()]
+            obs["pixels"] = pairs_q(cont)
+            obs["roundtrip"] = pairs_q(back)
         if pix:
-            pg = aa.Grid2D.no_mask(values=pix, shape_native=(1, len(pix)), pixel_scales=1.0)
             obs["scaled"] = [qlist(g.scaled_coordinates_2d_from(p)) for p in pix]
-            gs = g.grid_scaled_2d_from(grid_pixels_2d=pg)
-            obs["grid_scaled"] = pairs_q(gs.array)
-            obs["roundtrip_p"] = pairs_q(g.grid_pixels_2d_from(grid_scaled_2d=gs).array)
+            if route == "util":
+                a = np.asarray(arr_of(case["pixels"], vals))
+                gs = geometry_util.grid_scaled_2d_slim_from(grid_pixels_2d_slim=a, **ukw)
+                rt = geometry_util.grid_pixels_2d_slim_from(grid_scaled_2d_slim=gs, **ukw)
+            else:
+                gsg = g.grid_scaled_2d_from(grid_pixels_2d=qgrid(case["pixels"]))
+                gs = gsg.array
+                rt = g.grid_pixels_2d_from(grid_scaled_2d=gsg).array
+            obs["grid_scaled"] = pairs_q(gs)
+            obs["roundtrip_p"] = pairs_q(rt)
         return obs
 
     def _impl_grid(self, aa, case):
+        from autoarray.structures.grids import grid_2d_util
+
         mj = case["mask"]
-        m = np.array([c == "1" for c in mj["bits"]], dtype=bool).reshape(mj["h"], mj["w"])
-        sc = tuple(fl(v) for v in case["scales"])
-        org = tuple(fl(v) for v in case["origin"])
-        mask = aa.Mask2D(mask=m, pixel_scales=sc, origin=org)
+        H, W = mj["h"], mj["w"]
+        bits2d = [[mj["bits"][y * W + x] == "1" for x in range(W)] for y in range(H)]
+        v, sc, sc_t, okw = self._geometry_args(case)
+        org_t = tuple(okw["origin"]) if okw else (0.0, 0.0)
+        mask = aa.Mask2D(mask=mask_arg(bits2d, v.get("mask_arg", "ndarray")), pixel_scales=sc, **okw)
         return {
             "from_mask": pairs_q(aa.Grid2D.from_mask(mask=mask).array),
             "unmasked": pairs_q(mask.derive_grid.unmasked.array),
             "all_false": pairs_q(mask.derive_grid.all_false.array),
-            "uniform": pairs_q(aa.Grid2D.uniform(shape_native=(mj["h"], mj["w"]), pixel_scales=sc,
-                                                 origin=org).array),
+            "uniform": pairs_q(aa.Grid2D.uniform(shape_native=seq_of((H, W), v.get("seq", "tuple")),
+                                                 pixel_scales=sc, **okw).array),
+            "util": pairs_q(grid_2d_util.grid_2d_slim_via_mask_from(
+                mask_2d=np.array(bits2d, dtype=bool), pixel_scales=sc_t, origin=org_t)),
         }
 
     def _impl_grid1d(self, aa, case):
@@ -403,49 +562,68 @@ class C02(PropertyCheck):
 
         bits = case["bits"]
         n = len(bits)
-        s, o = fl(case["scale"]), fl(case["origin"])
-        m1 = aa.Mask1D(mask=np.array([c == "1" for c in bits], dtype=bool), pixel_scales=(s,), origin=(o,))
+        v = case.get("variant", {})
+        pm, pseq = v.get("params", "float"), v.get("point_seq", "tuple")
+        s, o = num(case["scale"], pm), num(case["origin"], pm)
+        marg = v.get("mask_arg", "ndarray")
+        m = [c == "1" for c in bits]
+        m = m if marg == "list" else [int(b) for b in m] if marg == "int_list" else np.array(m, dtype=bool)
+        okw = {} if (v.get("omit_defaults") and F(case["origin"]) == 0) else {"origin": (o,)}
+        sc = float(F(case["scale"])) if v.get("scalar_scales") else (s,)
+        m1 = aa.Mask1D(mask=m, pixel_scales=sc, **okw)
+        ipm = "int" if v.get("vals") in ("int64", "pyint") else "float"
         obs = {
             "extent": qlist(m1.geometry.extent),
-            "uniform": qlist(np.asarray(aa.Grid1D.uniform(shape_native=(n,), pixel_scales=s, origin=(o,)).array)),
+            "uniform": qlist(np.asarray(aa.Grid1D.uniform(shape_native=(n,), pixel_scales=sc, **okw).array)),
             "pix": [int(geometry_util.pixel_coordinates_1d_from(
-                scaled_coordinates_1d=(fl(p),), shape_slim=(n,), pixel_scales=(s,), origins=(o,))[0])
-                for p in case["points"]],
+                scaled_coordinates_1d=seq_of([num(p, ipm)], pseq), shape_slim=(n,), pixel_scales=(s,),
+                origins=(o,))[0]) for p in case["points"]],
             "scaled": qlist([geometry_util.scaled_coordinates_1d_from(
-                pixel_coordinates_1d=(fl(p),), shape_slim=(n,), pixel_scales=(s,), origins=(o,))[0]
-                for p in case["pixels"]]),
+                pixel_coordinates_1d=seq_of([num(p, ipm)], pseq), shape_slim=(n,), pixel_scales=(s,),
+                origins=(o,))[0] for p in case["pixels"]]),
+            "grid": qlist(np.asarray(aa.Grid1D.from_mask(mask=m1).array)),
         }
-        if "0" in bits:
-            obs["grid"] = qlist(np.asarray(aa.Grid1D.from_mask(mask=m1).array))
-        else:
-            obs["grid"] = []
         return obs
 
     def _impl_shape(self, aa, case):
+        from autoarray.mask import mask_2d_util
+
         H, W = case["shape"]
-        sc = tuple(fl(v) for v in case["scales"])
-        org = tuple(fl(v) for v in case["origin"])
-        cen = tuple(fl(v) for v in case["centre"])
-        kw = dict(shape_native=(H, W), pixel_scales=sc, origin=org, centre=cen)
+        v, sc, sc_t, okw = self._geometry_args(case)
+        pm, sq = v.get("params", "float"), v.get("seq", "tuple")
+        cen_t = tuple(num(x, pm) for x in case["centre"])
+        kw = dict(shape_native=seq_of((H, W), sq), pixel_scales=sc, **okw)
+        if not (v.get("omit_defaults") and all(F(x) == 0 for x in case["centre"])):
+            kw["centre"] = seq_of(cen_t, sq)
+        if v.get("explicit_flags"):
+            kw["invert"] = False
+        ukw = dict(shape_native=(H, W), pixel_scales=sc_t, centre=cen_t)
         ctor = case["ctor"]
-        g = lambda k: fl(case[k])
+        g = lambda k: num(case[k], pm)
         if ctor == "circular":
             m = aa.Mask2D.circular(radius=g("radius"), **kw)
+            u = mask_2d_util.mask_2d_circular_from(radius=g("radius"), **ukw)
         elif ctor == "annular":
             m = aa.Mask2D.circular_annular(inner_radius=g("inner"), outer_radius=g("outer"), **kw)
+            u = mask_2d_util.mask_2d_circular_annular_from(inner_radius=g("inner"), outer_radius=g("outer"), **ukw)
         elif ctor == "anti_annular":
             m = aa.Mask2D.circular_anti_annular(inner_radius=g("inner"), outer_radius=g("outer"),
                                                 outer_radius_2=g("outer2"), **kw)
+            u = mask_2d_util.mask_2d_circular_anti_annular_from(
+                inner_radius=g("inner"), outer_radius=g("outer"), outer_radius_2_scaled=g("outer2"), **ukw)
         elif ctor == "elliptical":
             m = aa.Mask2D.elliptical(major_axis_radius=g("major"), axis_ratio=g("axis_ratio"),
                                      angle=g("angle"), **kw)
+            u = mask_2d_util.mask_2d_elliptical_from(major_axis_radius=g("major"), axis_ratio=g("axis_ratio"),
+                                                     angle=g("angle"), **ukw)
         else:
-            m = aa.Mask2D.elliptical_annular(
-                inner_major_axis_radius=g("inner_major"), inner_axis_ratio=g("inner_axis_ratio"),
-                inner_phi=g("inner_phi"), outer_major_axis_radius=g("outer_major"),
-                outer_axis_ratio=g("outer_axis_ratio"), outer_phi=g("outer_phi"), **kw)
-        return {"mask": mask_json(np.asarray(m, dtype=bool)), "origin": qlist(m.origin),
-                "scales": qlist(m.pixel_scales)}
+            ek = dict(inner_major_axis_radius=g("inner_major"), inner_axis_ratio=g("inner_axis_ratio"),
+                      inner_phi=g("inner_phi"), outer_major_axis_radius=g("outer_major"),
+                      outer_axis_ratio=g("outer_axis_ratio"), outer_phi=g("outer_phi"))
+            m = aa.Mask2D.elliptical_annular(**ek, **kw)
+            u = mask_2d_util.mask_2d_elliptical_annular_from(**ek, **ukw)
+        return {"mask": mask_json(np.asarray(m, dtype=bool)), "util_mask": mask_json(np.asarray(u, dtype=bool)),
+                "origin": qlist(m.origin), "scales": qlist(m.pixel_scales)}
 
     # ------------------------------------------------------------------ model
     def model_requests(self, case, impl_obs):
@@ -483,14 +661,15 @@ class C02(PropertyCheck):
             obs = dict(R[0])
             obs["grid"] = R[1]
             obs["centre_roundtrip"] = R[2]
+            obs["empty"] = [0, 0, 0, 0]
             if case["points"]:
-                obs.update({k: R[3][k] for k in ("pix_a", "centres", "indexes", "pixels", "roundtrip")})
+                obs.update({k: R[3][k] for k in ("pix_a", "centres", "indexes", "pixels", "roundtrip", "snap")})
             if case["pixels"]:
                 obs.update({"scaled": R[4]["scaled"], "grid_scaled": R[4]["grid_scaled"],
                             "roundtrip_p": R[4]["roundtrip"]})
             return obs
         if kind == "grid":
-            return {"from_mask": R[0], "unmasked": R[0], "all_false": R[1], "uniform": R[1]}
+            return {"from_mask": R[0], "unmasked": R[0], "util": R[0], "all_false": R[1], "uniform": R[1]}
         if kind == "grid1d":
             return R[0]
         return {"mask": R[0]["mask"], "origin": case["origin"], "scales": case["scales"],
@@ -505,7 +684,7 @@ class C02(PropertyCheck):
             io = dict(impl_obs)
             if case["points"]:
                 flags = [in_band(case, p) for p in case["points"]]
-                for key in ("pix_a", "centres", "indexes"):
+                for key in ("pix_a", "centres", "indexes", "snap"):
                     io[key] = [None if f else v for f, v in zip(flags, io[key])]
                     mo[key] = [None if f else v for f, v in zip(flags, mo[key])]
             return cmp.diff(io, mo)
@@ -519,13 +698,17 @@ class C02(PropertyCheck):
             return cmp.diff(io, mo)
         if kind == "shape":
             band = self._shape_band(case)
-            ib, mb = impl_obs["mask"]["bits"], model_obs["mask"]["bits"]
-            io = {**impl_obs, "mask": {**impl_obs["mask"],
-                                       "bits": "".join("?" if f else c for f, c in zip(band, ib))}}
-            mo = {"mask": {**model_obs["mask"], "bits": "".join("?" if f else c for f, c in zip(band, mb))},
-                  "origin": model_obs["origin"], "scales": model_obs["scales"]}
-            if len(ib) != len(mb):
-                return f"$.mask.bits: length impl={len(ib)} model={len(mb)}"
+            mb = model_obs["mask"]["bits"]
+            hide = lambda bits: "".join("?" if f else c for f, c in zip(band, bits))
+            io, mo = dict(impl_obs), {"origin": model_obs["origin"], "scales": model_obs["scales"]}
+            for key in ("mask", "util_mask"):
+                if key not in impl_obs:
+                    continue
+                ib = impl_obs[key]["bits"]
+                if len(ib) != len(mb):
+                    return f"$.{key}.bits: length impl={len(ib)} model={len(mb)}"
+                io[key] = {**impl_obs[key], "bits": hide(ib)}
+                mo[key] = {**model_obs["mask"], "bits": hide(mb)}
             return cmp.diff(io, mo)
         return cmp.diff(impl_obs, model_obs)
 
@@ -599,7 +782,8 @@ class C02(PropertyCheck):
             oy, ox = (F(v) for v in case["origin"])
             allp = [(i, j) for i in range(H) for j in range(W)]
             unm = [p for p in allp if mj["bits"][p[0] * W + p[1]] == "0"]
-            for key, pix in (("from_mask", unm), ("unmasked", unm), ("all_false", allp), ("uniform", allp)):
+            for key, pix in (("from_mask", unm), ("unmasked", unm), ("util", unm), ("all_false", allp),
+                             ("uniform", allp)):
                 got = obs[key]
                 if len(got) != len(pix):
                     return False, f"{key}: {len(got)} coordinates for {len(pix)} pixels"
@@ -640,14 +824,19 @@ class C02(PropertyCheck):
         if [F(v) for v in obs["scales"]] != [F(v) for v in case["scales"]]:
             return False, f"mask pixel_scales {obs['scales']} != requested {case['scales']}"
         ev = self._shape_eval(case)
-        bits = obs["mask"]["bits"]
-        for k, (unm, band) in enumerate(ev):
-            if band:
+        for key in ("mask", "util_mask"):
+            if key not in obs:
                 continue
-            if (bits[k] == "0") != unm:
-                return False, (f"{case['ctor']}: pixel ({k // W},{k % W}) is "
-                               f"{'unmasked' if bits[k] == '0' else 'masked'} but its centre "
-                               f"{'satisfies' if unm else 'violates'} the radial inequality")
+            if obs[key]["h"] != H or obs[key]["w"] != W:
+                return False, f"{key} has the wrong shape"
+            bits = obs[key]["bits"]
+            for k, (unm, band) in enumerate(ev):
+                if band:
+                    continue
+                if (bits[k] == "0") != unm:
+                    return False, (f"{case['ctor']} ({key}): pixel ({k // W},{k % W}) is "
+                                   f"{'unmasked' if bits[k] == '0' else 'masked'} but its centre "
+                                   f"{'satisfies' if unm else 'violates'} the radial inequality")
         return True, ""
 
     def _oracle_geom(self, case, obs):
@@ -680,6 +869,8 @@ class C02(PropertyCheck):
         if obs["centre_roundtrip"] != exp_rt:
             bad = next(k for k in range(H * W) if obs["centre_roundtrip"][k] != exp_rt[k])
             return False, f"centre of pixel {exp_rt[bad]} converts to index {obs['centre_roundtrip'][bad]}"
+        if obs.get("empty", [0, 0, 0, 0]) != [0, 0, 0, 0]:
+            return False, f"an empty coordinate list converts to non-empty outputs {obs['empty']}"
         # containment
         for k, p in enumerate(case["points"]):
             y, x = F(p[0]), F(p[1])
@@ -701,6 +892,12 @@ class C02(PropertyCheck):
                                    f"but converts to {obs[key][k]}")
             if obs["indexes"][k] != i * W + j:
                 return False, f"flattened index of ({fl(y)},{fl(x)}) is {obs['indexes'][k]}, expected {i * W + j}"
+            if "snap" in obs:
+                ey, ex = centre_of(H, W, sy, sx, oy, ox, i, j)
+                gy, gx = obs["snap"][k]
+                if not (cl(gy, ey) and cl(gx, ex)):
+                    return False, (f"coordinate ({fl(y)},{fl(x)}) snaps to ({fl(gy)},{fl(gx)}), but the centre of "
+                                   f"its pixel ({i},{j}) is ({float(ey)},{float(ex)})")
         # pixel -> scaled and continuous inverse
         for k, p in enumerate(case["pixels"]):
             pi, pj = F(p[0]), F(p[1])
